@@ -574,7 +574,8 @@ Print Assumptions C07_total_example.
    Signature), methods (flags, name, descriptor, Deprecated / Synthetic, Exceptions, Signature, Code), Code (max_stack /
    max_locals, the instruction list with labels, exception table with catch types, last label, LineNumberTable), and of
    the instructions: all with a class / field / method reference operand, all without operand, conditional jumps, goto,
-   jsr.  It answers None for everything else (see the header of coq/X27/Tr.v). *)
+   jsr, and since round 7 ldc (no Float / Double constants), invokedynamic, the local-variable family, bipush, sipush,
+   newarray, the switches.  It answers None for everything else (see the header of coq/X27/Tr.v). *)
 From Coq Require Import ZArith.
 From FB Require X27.Tr X27.TrTheory X27.TrEx.
 From FB Require C01.Model C01.Pool C01.Resolve C01.Mutf8 C01.Attr C01.Tables X12.BridgeDefs X12.BridgePool X12.BridgeClass.
@@ -638,3 +639,137 @@ Print Assumptions C07_remap_write_read.
 Theorem C07_tr_example : X27.TrEx.tr_example.
 Proof. exact X27.TrEx.tr_example_holds. Qed.
 Print Assumptions C07_tr_example.
+
+(* ------------------------------------------------------------------ *)
+(* B3: LOADABLE CONSTANTS AND INVOKEDYNAMIC (coq/X27/Tr.v handle_of / ld_of / dyn_of / ld_ref, coq/X27/TrLd.v).
+   [handle_of], [ld_of], [dyn_of sn], [ld_ref] project duke's Handle / Loadable / ConstantDynamic / InvokeDynamic tree values
+   and the instructions Ldc / InvokeDynamic to xhandle / xload / xop (strings as code points; bootstrap arguments recursively,
+   as deep as the tree is — remap.rs has no depth limit there); remap_xhandle / remap_xload / remap_xop ask the remapper
+   (map_class_any for class constants, map_desc for method types and the descriptors of dynamic constants / call sites,
+   map_field_ref / map_method_ref for the owner, name and descriptor of a handle; names of dynamic constants / call sites,
+   numbers and strings kept); chandle_of / cload_of / cinsn_of_x hand them to C02's writer model (mutf8).  [tr] now covers
+   ldc (Integer / Long / Class / String / MethodHandle / MethodType / Dynamic constants) and invokedynamic; Float / Double
+   constants stay outside. *)
+From FB Require X27.TrLd X27.TrLdEx.
+
+(* the projections commute with remapping: the projection of the remapped value is the remapper's answer for the projection
+   of the original value (specification side; the *_remap form is for the interpreter of the regenerated table) *)
+Theorem C07_handle_commutes : forall R ctx v v' h,
+  spec_val type_defs Occ.RTo R ctx (TName "Handle") v = Ok v' -> X27.Tr.handle_of v = Some h ->
+  exists h', X27.Tr.remap_xhandle R h = Ok h' /\ X27.Tr.handle_of v' = Some h'.
+Proof. exact X27.TrLd.handle_commutes. Qed.
+Print Assumptions C07_handle_commutes.
+
+Theorem C07_loadable_commutes : forall R ctx v v' x,
+  spec_val type_defs Occ.RTo R ctx (TName "Loadable") v = Ok v' -> X27.Tr.ld_of v = Some x ->
+  exists x', X27.Tr.remap_xload R x = Ok x' /\ X27.Tr.ld_of v' = Some x'.
+Proof. exact X27.TrLd.loadable_commutes. Qed.
+Print Assumptions C07_loadable_commutes.
+
+Theorem C07_dyn_commutes : forall R sn ctx v v' nm d h a,
+  sn = "ConstantDynamic"%string \/ sn = "InvokeDynamic"%string ->
+  spec_val type_defs Occ.RTo R ctx (TName sn) v = Ok v' -> X27.Tr.dyn_of sn v = Some (nm, d, h, a) ->
+  exists d' h' a', map_desc R d = Ok d' /\ X27.Tr.remap_xhandle R h = Ok h' /\ mapM (X27.Tr.remap_xload R) a = Ok a' /\
+                   X27.Tr.dyn_of sn v' = Some (nm, d', h', a').
+Proof. exact X27.TrLd.dyn_commutes. Qed.
+Print Assumptions C07_dyn_commutes.
+
+Theorem C07_ldc_commutes : forall R ctx i i' o,
+  has_ty type_defs (TName "Instruction") i = true -> remap_val gen_table R ctx (TName "Instruction") i = Ok i' ->
+  X27.Tr.ld_ref i = Some o ->
+  exists o', X27.Tr.remap_xop R o = Ok o' /\ X27.Tr.ld_ref i' = Some o'.
+Proof. exact X27.TrLd.ldc_commutes_remap. Qed.
+Print Assumptions C07_ldc_commutes.
+
+(* WRITE o REMAP for ldc / invokedynamic (composition with C02's bootstrap_resolves): v a well-typed class, v' what the
+   interpreter of the regenerated table makes of it, t := tr v'.  At the offset of instruction k of method j in the code array
+   C02's writer model writes stand
+   - ldc: the form the writer chose (C02's ldc_bytes: ldc / ldc_w / ldc2_w) with an index that C02's [ldenotes] in the written
+     pool and bootstrap-method table what the remapper answers for the ORIGINAL constant: a Class / MethodType / MethodHandle
+     constant through the kind-checked getters of every decoder view of the pool; a Dynamic constant as a CONSTANT_Dynamic entry
+     whose name-and-type is (name, remapped descriptor) and whose bootstrap_method_attr_index selects the table entry
+     (remapped handle, argument indices), every argument index denoting the remapped argument — recursively;
+   - invokedynamic: 186, index, 0, 0 with the index of a CONSTANT_InvokeDynamic entry whose name-and-type is (name, remapped
+     descriptor), whose table entry holds the remapped handle and argument indices that denote the remapped arguments. *)
+Theorem C07_remap_write_ldc :
+  forall (R : remapper) (v v' : val) (t : C02.Class.cclass) (cbytes : list N) (aux : C02.Class.class_aux),
+    has_ty type_defs (TName "ClassFile") v = true ->
+    remap_val gen_table R None (TName "ClassFile") v = Ok v' ->
+    X27.Tr.tr v' = Some t ->
+    C02.TheoryC8.cclass_ok t = true ->
+    C02.Class.write_class_aux t = C02.Class.WOK (cbytes, aux) ->
+    forall j k i o, sub (insn_path j k) v = Some i -> X27.Tr.ld_ref i = Some o ->
+      exists o' w labs pos q,
+        X27.Tr.remap_xop R o = Ok o' /\
+        nth_error (C02.Class.a_codes aux) j = Some (Some (w, labs, pos)) /\ nth_error pos k = Some q /\
+        match o' with
+        | X27.Tr.XLdc x =>
+            exists idx, C02.TheoryC10.bytes_at w q (C02.TheoryC10.ldc_bytes (X27.Tr.cload_of x) idx) /\
+                        C02.TheoryB2.ldenotes (C02.Class.a_pool aux) (C02.Class.a_bsm aux) (X27.Tr.cload_of x) idx
+        | X27.Tr.XIndyOp n d h args =>
+            exists idx b nt idxs,
+              C02.TheoryC10.bytes_at w q ([186%N] ++ C02.Model.be16 idx ++ [0%N; 0%N])%list /\
+              C02.TheoryC2.resolves (C02.Class.a_pool aux) idx (C02.Class.CInvokeDynamic b nt) /\
+              C02.TheoryC2.refers C02.Decode.get_nat (C02.Class.mutf8 n, C02.Class.mutf8 d) (C02.Class.a_pool aux) nt /\
+              (0 <= b)%Z /\ nth_error (C02.Class.a_bsm aux) (Z.to_nat b) = Some (X27.Tr.chandle_of h, idxs) /\
+              Forall2 (C02.TheoryB2.ldenotes (C02.Class.a_pool aux) (C02.Class.a_bsm aux)) (map X27.Tr.cload_of args) idxs
+        end.
+Proof. exact X27.TrLd.written_ldc_tr. Qed.
+Print Assumptions C07_remap_write_ldc.
+
+(* non-vacuity: every hypothesis holds for a concrete class — ldc of a class; ldc of a dynamic constant whose arguments are
+   a method type and a second dynamic constant (handle getstatic a/A.f:I, arguments a/A.class and -5); invokedynamic with an
+   interface invokestatic handle, a string and a getfield handle as arguments — and ex_R; the written bootstrap-method table
+   has three entries; the conclusion names x/Y wherever a/A was a class, keeps the string "a/A", and the field g *)
+Theorem C07_ld_example : X27.TrLdEx.ld_example.
+Proof. exact X27.TrLdEx.ld_example_holds. Qed.
+Print Assumptions C07_ld_example.
+
+(* … READ BY C01's POOL READER (through coq/X12: loadable_read / indy_read): C01's read_head reads from the written file the
+   pool P = rpool dec cs; for every bootstrap table B that agrees with the written one (X12.BridgeDyn.table_agrees — what
+   C02_bridge_bootstrap_table derives from the BootstrapMethods attribute of the file), C01's get_loadable resolves the index in
+   the written ldc instruction to the value (lval: strings decoded; name and descriptor from the entry's own NameAndType, handle
+   and arguments from the bootstrap method, recursively) of what the remapper answers for the ORIGINAL constant, for every fuel
+   above its nesting depth; and get_invoke_dynamic the index in the written invokedynamic to the remapped call site, when the
+   arguments nest less deep than C01's limit (nesting_fuel = 66; remap.rs and duke's writer have no limit) *)
+From FB Require X27.TrLdRead X27.TrLdReadEx X12.BridgeDyn.
+Theorem C07_remap_write_ldc_read :
+  forall (R : remapper) (v v' : val) (t : C02.Class.cclass) (cbytes : list N) (aux : C02.Class.class_aux),
+    has_ty type_defs (TName "ClassFile") v = true ->
+    remap_val gen_table R None (TName "ClassFile") v = Ok v' ->
+    X27.Tr.tr v' = Some t ->
+    C02.TheoryC8.cclass_ok t = true ->
+    C02.Class.write_class_aux t = C02.Class.WOK (cbytes, aux) ->
+    C01.Attr.header_ok C01.Tables.magic (Z.to_N (C02.Class.k_minor t)) (Z.to_N (C02.Class.k_major t)) = true ->
+    X12.BridgeClass.pool_utf8_ok C01.Mutf8.mutf8_dec (C02.Class.a_pool aux) = true ->
+    exists cs head rest,
+      X12.BridgeClass.read_head true C01.Mutf8.mutf8_dec cbytes
+      = Ok (Z.to_N (C02.Class.k_minor t), Z.to_N (C02.Class.k_major t), X12.BridgePool.rpool C01.Mutf8.mutf8_dec cs, head, rest) /\
+      forall B, X12.BridgeDyn.table_agrees cs (C02.Class.a_bsm aux) B ->
+      forall j k i o, sub (insn_path j k) v = Some i -> X27.Tr.ld_ref i = Some o ->
+        exists o' w labs pos q,
+          X27.Tr.remap_xop R o = Ok o' /\
+          nth_error (C02.Class.a_codes aux) j = Some (Some (w, labs, pos)) /\ nth_error pos k = Some q /\
+          match o' with
+          | X27.Tr.XLdc x =>
+              exists idx, C02.TheoryC10.bytes_at w q (C02.TheoryC10.ldc_bytes (X27.Tr.cload_of x) idx) /\
+                forall fuel, (X12.BridgeDyn.ldepth (X27.Tr.cload_of x) < fuel)%nat ->
+                  C01.Pool.get_loadable fuel (X12.BridgePool.rpool C01.Mutf8.mutf8_dec cs) B (Z.to_N idx)
+                  = Ok (X12.BridgeDyn.lval C01.Mutf8.mutf8_dec (X27.Tr.cload_of x))
+          | X27.Tr.XIndyOp n d h args =>
+              exists idx, C02.TheoryC10.bytes_at w q ([186%N] ++ C02.Model.be16 idx ++ [0%N; 0%N])%list /\
+                (Forall (fun a => (X12.BridgeDyn.ldepth a < pred C01.Pool.nesting_fuel)%nat) (map X27.Tr.cload_of args) ->
+                 C01.Pool.get_invoke_dynamic (X12.BridgePool.rpool C01.Mutf8.mutf8_dec cs) B (Z.to_N idx)
+                 = Ok (C01.Pool.VIndy (X12.BridgePool.sdec C01.Mutf8.mutf8_dec (C02.Class.mutf8 n))
+                                      (X12.BridgePool.sdec C01.Mutf8.mutf8_dec (C02.Class.mutf8 d))
+                                      (X12.BridgePool.handle_val C01.Mutf8.mutf8_dec (X27.Tr.chandle_of h))
+                                      (map (X12.BridgeDyn.lval C01.Mutf8.mutf8_dec) (map X27.Tr.cload_of args))))
+          end.
+Proof. exact X27.TrLdRead.written_ldc_read_c01. Qed.
+Print Assumptions C07_remap_write_ldc_read.
+
+(* non-vacuity of its decidable hypotheses on the class of C07_ld_example; the remapped dynamic constant nests 2 deep, below
+   C01's limit.  (The premise table_agrees is the conclusion of C02_bridge_bootstrap_table in Props/C02.v.) *)
+Theorem C07_ld_read_example : X27.TrLdReadEx.ld_read_example.
+Proof. exact X27.TrLdReadEx.ld_read_example_holds. Qed.
+Print Assumptions C07_ld_read_example.
